@@ -558,6 +558,48 @@ def rule_unary(chk, prog, tier):
                 if isinstance(got, str): r.instance(False, key, where, 'valid operand rejected: %s' % got); continue
                 ok = got['kind'] == 'EXPRCONST' and got['type'] == 'ulong' and got['value'] == size
                 r.instance(bool(ok), key, where, 'expected the size_t constant %s; got %s' % (size, got))
+    # sizeof applied to arrays: the array is not converted to a pointer; a variable-length array gives a run-time value - of type size_t as well (6.5.3.4p2, p5)
+    for what in ('int[3]', 'int[n]', 'int[2][n]'):
+        def runner(it):
+            w = World(prog, it=it, target='x86_64-sysv')
+            I = w.t('int')
+            if what == 'int[3]': a = it.call('mkarraytype', [I, 0, 3])
+            else:
+                a = it.call('mkarraytype', [I, 0, 0]); a.obj.f[('incomplete',)] = 0; a.obj.f[('size',)] = 0; a.obj.f[('prop',)] = (it.load(a.obj, ('prop',)) or 0) | ev(prog, 'PROPVM')
+                a.obj.f[('u', 'array', 'length')] = w.temp(I, 'n')
+                if what == 'int[2][n]':
+                    o = it.call('mkarraytype', [a, 0, 2]); o.obj.f[('size',)] = 0; o.obj.f[('prop',)] = (it.load(o.obj, ('prop',)) or 0) | ev(prog, 'PROPVM')
+                    o.obj.f[('u', 'array', 'length')] = w.mkexpr('EXPRCONST', w.t('ulong'), u__constant__u=2); a = o
+            x = w.temp(a, 'a'); x.obj.f[('lvalue',)] = 1
+            e_ = it.call('decay', [x])
+            tokobj = it.gobj('tok'); cur = {'i': 0}; seq = ['TSIZEOF', 'TIDENT', 'TSEMICOLON']
+            def load():
+                tokobj.f[('kind',)] = ev(prog, seq[min(cur['i'], 2)]); tokobj.f[('lit',)] = None
+                tokobj.f[('loc', 'file')] = None; tokobj.f[('loc', 'line')] = 1; tokobj.f[('loc', 'col')] = 1
+            def nxt(i2, a_, e): cur['i'] += 1; load(); return None
+            def operand(i2, a_, e): nxt(i2, a_, e); return e_
+            it.models.update({'next': nxt, 'consume': lambda i2, a_, e: 0, 'castexpr': operand, 'postfixexpr': operand, 'unaryexpr': None, 'free': lambda i2, a_, e: None,
+                              'xmalloc': lambda i2, a_, e: Ptr(Obj('heap@%s' % e.get('line'), 'heap'), ()),
+                              'fatal': lambda i2, a_, e: (_ for _ in ()).throw(Terminal('fatal', a_)), 'error': lambda i2, a_, e: (_ for _ in ()).throw(Terminal('error', a_))})
+            del it.models['unaryexpr']
+            depth = {'n': 0}
+            def unary(i2, a_, e):
+                depth['n'] += 1
+                try: return operand(i2, a_, e) if depth['n'] > 1 else i2.call(fn, a_)
+                finally: depth['n'] -= 1
+            it.models['unaryexpr'] = unary
+            load()
+            res = it.call(fn, [Ptr(Obj('scope', 'heap'), ())])
+            K = {ev(prog, k): k for k in ('EXPRCONST', 'EXPRSIZEOF', 'EXPRCAST')}
+            k = K.get(it.load(res.obj, ('kind',)))
+            return k, name_of_type(dict(universe(w)), it.load(res.obj, ('type',))), it.load(res.obj, ('u', 'constant', 'u')) if k == 'EXPRCONST' else None
+        runs = explore(prog, runner, {}, max_runs=2, on_unsupported='keep')
+        key = 'unary:TSIZEOF,%s' % what
+        if len(runs) != 1 or runs[0].outcome != 'return': raise AnalysisBroken('%s: %s' % (key, [(x.outcome, x.detail) for x in runs][:2]))
+        k, ty, val = runs[0].value
+        if what == 'int[3]': ok = (k, ty, val) == ('EXPRCONST', 'ulong', 12)
+        else: ok = k in ('EXPRSIZEOF', 'EXPRCAST') and ty == 'ulong'
+        r.instance(ok, key, 'expr.c:%s' % fn.get('line'), 'expected %s of type size_t (unsigned long); got %s of type %s %s' % ('the constant 12' if what == 'int[3]' else 'a run-time size', k, ty, val if val is not None else ''))
     r.exhaustive = True
 
 
@@ -1474,6 +1516,9 @@ def run(chk, tier):
     chk.guard('C05.e3', lambda: rule_qualified_arrays(chk, prog, tier))
     chk.guard('C05.k', lambda: rule_generic(chk, prog, tier))
     chk.guard('C05.l', lambda: rule_indirection(chk, prog, tier))
+    from props import c10, c14
+    chk.guard('C10.j', lambda: c10.rule_assign_constraints(chk, prog, tier))   # pointer-assignment compatibility and qualifier checks (6.5.16.1)
+    chk.guard('C14.s', lambda: c14.rule_stringconcat(chk, prog, tier))        # element type of string literals, per target (wchar_t)
     chk.guard('C05.m', lambda: rule_value_category(chk, prog, tier))
     chk.guard('C05.n', lambda: rule_bitfield_values(chk, prog, tier))
     chk.guard('C05.o', lambda: rule_promote_expr(chk, prog, tier))
